@@ -20,11 +20,12 @@ def scenarios(seed, n_random):
     rnd = random.Random(seed * 104729 + 17)
     out = []
 
-    def add(name, hb, steps, end, clean=False):
-        out.append(dict(id="st-%s-%d" % (name, len(out)), hb=hb, seed=rnd.randint(1, 10**6), steps=sorted(steps, key=lambda s: s["at"]), endMs=end, clean=clean,
+    def add(name, hb, steps, end, clean=False, buf=0):
+        out.append(dict(id="st-%s-%d" % (name, len(out)), hb=hb, seed=rnd.randint(1, 10**6), steps=sorted(steps, key=lambda s: s["at"]), endMs=end, clean=clean, buf=buf,
                         timed=not any(st["op"].startswith("block") for st in steps),
                         # back-pressure and the big bursts on synchronous in-memory connections (see harness/stack: Pipe)
                         pipe=any(st["op"].startswith("block") or "burst" in st["op"] for st in steps) and name != "burst-tcp"))
+        # (a big send runs in a goroutine of its own, like a burst)
     # steady state: nothing but timers
     add("steady", 1, [], 3600)
     add("steady2", 2, [], 5200)
@@ -55,6 +56,12 @@ def scenarios(seed, n_random):
     add("backpressure-a2i", 10, [S(300, "block-a2i"), S(350, "acc-burst"), S(1300, "unblock-a2i")], 4600, clean=True)
     add("backpressure-both", 10, [S(300, "block-a2i"), S(310, "block-i2a"), S(350, "acc-burst"), S(360, "ini-burst"), S(1500, "unblock-a2i"),
                                   S(1600, "unblock-i2a")], 5200, clean=True)
+    # queues of 512 messages behind a blocked transport (tens of kilobytes waiting for the writer), and single messages larger than
+    # any buffer with more queued right behind them
+    add("backpressure-bigqueue", 10, [S(300, "block-i2a"), S(305, "block-a2i"), S(350, "ini-burst"), S(360, "acc-burst-reuse"), S(1300, "unblock-i2a"),
+                                      S(1350, "unblock-a2i")], 4800, clean=True, buf=512)
+    add("backpressure-bigmsgs", 10, [S(300, "block-i2a"), S(305, "block-a2i"), S(350, "ini-send-big"), S(352, "acc-send-big"), S(400, "ini-burst"),
+                                     S(410, "acc-burst"), S(500, "ini-send-big"), S(1300, "unblock-i2a"), S(1350, "unblock-a2i")], 4800, clean=True)
     add("burst-free", 1, [S(300, "ini-burst"), S(300, "acc-burst")], 2600, clean=True)
     add("burst-tcp", 1, [S(300, "ini-burst"), S(300, "acc-burst-reuse")], 2600, clean=True)
     # retransmission on request in the middle of traffic: what follows is numbered on from where the first transmissions stopped
